@@ -44,7 +44,15 @@ impl<'a> ZodSchemaBuilder<'a> {
                 let modifier = if nested { "nullable" } else { "optional" };
                 format!(
                     "{}.{}()",
-                    self.render_type(inner, validator, false, is_record_key, nested),
+                    // The field's own Option keeps its validators; an Option below another
+                    // constructor (Vec<Option<String>>) inherits that constructor's "no validators"
+                    self.render_type(
+                        inner,
+                        validator,
+                        skip_validation && nested,
+                        is_record_key,
+                        nested
+                    ),
                     modifier
                 )
             }
